@@ -185,7 +185,7 @@ CELLS_QUICK = ['w', 'd', 'k', 'm', 'wdkx']
 CELLS_FULL = CELLS_QUICK + ['a', 'n', 'x', 'mw', 'md', 'mwdk', 'i']
 def cell_cases(prop, restart, full=False, cells=None):
     corpus = oc.corpus_cases(prop, restart)
-    flag = {c['id']: c for c in oc.open_flag_cases(restart)}
+    flag = {c['id']: c for c in oc.open_flag_cases(restart, full=True)}
     pick_corpus = corpus if full else [corpus[3], corpus[4]]
     pick_flag = list(flag.values()) if full else [flag[i] for i in ('o1r_t', 'o1w_a', 'o0r_t')]
     out = []
